@@ -9,7 +9,7 @@ for id in $IDS; do
   s=$(date +%s)
   ./vcheck $id --tier $T --evidence /tmp/ev-$T-$id.json > /tmp/all-$T-$id.log 2>&1; rc=$?
   e=$(date +%s)
-  printf '%s\t%s\t%s\t%s\n' "$id" "$rc" "$((e-s))" "$(tail -1 /tmp/all-$T-$id.log | cut -c1-160)" >> $OUT
-  grep -E "^(INCONCLUSIVE|UNCONFIRMED|VIOLATION)" /tmp/all-$T-$id.log | head -3 | cut -c1-300 >> $OUT
+  printf "%s\t%s\t%s\t%s\n" "$id" "$rc" "$((e-s))" "$(grep -a " $T: " /tmp/all-$T-$id.log | tail -1 | cut -c1-160)" >> $OUT
+  grep -a -E "^(INCONCLUSIVE|UNCONFIRMED|VIOLATION)" /tmp/all-$T-$id.log | head -3 | cut -c1-300 >> $OUT
 done
 cat $OUT
